@@ -83,10 +83,13 @@ func (h *Handler) spoofLoop(addr packet.Addr) {
 	for {
 		// the hunt list is keyed by MAC: look up our own entry. (A lookup by IP finds the entry of
 		// another hunted MAC that uses the same IPv4 and keeps this loop alive after StopHunt.)
+		//
+		// The packet the lookup calls for is written before the mutex is released: StartHunt, StopHunt
+		// and Close take the same mutex, so no forged packet is written once StopHunt or Close has
+		// returned, and none after the restoring packet unless the target is hunted again.
 		h.arpMutex.Lock()
 		targetAddr, hunting := h.huntList[string(addr.MAC)]
 		closed := h.closed
-		h.arpMutex.Unlock()
 
 		if !hunting || closed {
 			if Logger.IsInfo() {
@@ -100,6 +103,7 @@ func (h *Handler) spoofLoop(addr packet.Addr) {
 					Logger.Msg("error send request packet").Struct(addr).Error(err).Write()
 				}
 			}
+			h.arpMutex.Unlock()
 			return
 		}
 
@@ -108,6 +112,7 @@ func (h *Handler) spoofLoop(addr packet.Addr) {
 		// Announce to target that we own the router IP; This will update the target arp table with our mac
 		// i.e. tell target I am 192.168.0.1
 		err := h.AnnounceTo(targetAddr.MAC, h.session.NICInfo.RouterAddr4.IP)
+		h.arpMutex.Unlock()
 		if err != nil {
 			Logger.Msg("error send announcement packet").Struct(targetAddr).Error(err).Write()
 			return
